@@ -318,17 +318,17 @@ func runC08(p *Program, r *Result) {
 // checkFooterAfterClose (shared with C05): the footer separator is chosen
 // after the encoder has flushed its last group.
 func checkFooterAfterClose(p *Program, r *Result, cl *ssa.Function) {
-		ctb := p.TB(cl)
-		lle := callsTo(cl, "(*"+pkgFormat+".WrappedBase64Encoder).LastLineIsEmpty")
-		ok := len(lle) > 0
-		for _, c := range lle {
-			facts := ctb.FactsAt(c.Block())
-			_, closed := findFact(facts, func(a Atom) bool {
-				return a.Kind == "cmp" && a.Op == "==" && a.Y.Op == "Nil" && a.X.Op == "Call" && a.X.S == "(*"+pkgFormat+".WrappedBase64Encoder).Close"
-			})
-			if !closed {
-				ok = false
-			}
+	ctb := p.TB(cl)
+	lle := callsTo(cl, "(*"+pkgFormat+".WrappedBase64Encoder).LastLineIsEmpty")
+	ok := len(lle) > 0
+	for _, c := range lle {
+		facts := ctb.FactsAt(c.Block())
+		_, closed := findFact(facts, func(a Atom) bool {
+			return a.Kind == "cmp" && a.Op == "==" && a.Y.Op == "Nil" && a.X.Op == "Call" && a.X.S == "(*"+pkgFormat+".WrappedBase64Encoder).Close"
+		})
+		if !closed {
+			ok = false
 		}
-		r.Check(ok, cl.String(), "footer-separator-after-close", "", "LastLineIsEmpty is consulted only after encoder.Close() succeeded", "LastLineIsEmpty is called before the encoder is closed (its documentation calls that meaningless): the final padded group is not yet counted, so the footer is glued to or separated from the last line wrongly for some lengths")
 	}
+	r.Check(ok, cl.String(), "footer-separator-after-close", "", "LastLineIsEmpty is consulted only after encoder.Close() succeeded", "LastLineIsEmpty is called before the encoder is closed (its documentation calls that meaningless): the final padded group is not yet counted, so the footer is glued to or separated from the last line wrongly for some lengths")
+}
